@@ -902,10 +902,13 @@ func (r *Reader) processHeading(h headingXML) parsedParagraph {
 		Level:     1, // Default level
 	}
 
-	// Parse outline level
+	// Parse outline level: text:outline-level on the heading element itself is
+	// the level of the heading (ODF 1.2 part 1, 19.844.4)
+	hasLevel := false
 	if h.OutlineLevel != "" {
 		if level, err := strconv.Atoi(h.OutlineLevel); err == nil && level >= 1 && level <= 9 {
 			parsed.Level = level
+			hasLevel = true
 		}
 	}
 
@@ -913,8 +916,9 @@ func (r *Reader) processHeading(h headingXML) parsedParagraph {
 	if r.styleResolver != nil {
 		resolved := r.styleResolver.Resolve(h.StyleName)
 		parsed.Alignment = resolved.Alignment
-		// If style has heading level, prefer that
-		if resolved.IsHeading && resolved.HeadingLevel > 0 {
+		// The style (its default-outline-level or a name such as "Heading 2")
+		// only decides when the element does not state a valid level
+		if !hasLevel && resolved.IsHeading && resolved.HeadingLevel > 0 {
 			parsed.Level = resolved.HeadingLevel
 		}
 	}
